@@ -312,6 +312,14 @@ def run(ctx):
     ctx.need(len(refs) == 1, "Label::Ref construction in expect_lit_or_label")
     l = lin(ll.expr(refs[0]["r"]["ops"][0], 12, stop={"named"}))
     ok = same(l, 1, [("line", 1), ("val", 1)])
+    if not ok:
+        # by what the terms are, not by the names of the temporaries: the parser's line counter, the literal just read, and 1
+        l2 = lin(ll.expr(refs[0]["r"]["ops"][0], 16))
+        ks = [str(k_) for k_ in l2[1]]
+        ok = l2[0] == 1 and sorted(l2[1].values()) == [1, 1] and any(re.search(r"\.line\b", k_) and "expect_lit" not in k_ for k_ in ks) \
+            and any("expect_lit(" in k_ for k_ in ks)
+        if ok:
+            l = l2
     ctx.instance(1)
     ctx.oblig(ok, {"literal reference": show(l)}, "line + 1 + val")
     if not ok:
